@@ -5,6 +5,7 @@ import Driver.C13
 import Driver.C11
 import Driver.C01
 import Driver.C08
+import Driver.C05
 import Driver.C06
 import Driver.C18
 import Driver.C02
@@ -27,6 +28,7 @@ def dispatch (line : String) : String :=
   | "C11" :: r => Driver.C11.handle r
   | "C01" :: r => Driver.C01.handle r
   | "C08" :: r => Driver.C08.handle r
+  | "C05" :: r => Driver.C05.handle r
   | "C06" :: r => Driver.C06.handle r
   | "C18" :: r => Driver.C18.handle r
   | "C02" :: r => Driver.C02.handle r
